@@ -68,6 +68,12 @@ func c16Open(target, dir string, roots []cid.Cid, cfg lab.Cfg, faults []iofault.
 		s.mf.SetFaults(faults)
 		s.scr, err = storage.NewReadableWritable(s.mf, roots, cfg.Opts()...)
 		s.sc = s.scr
+	case "storage-rw-notrunc":
+		// a ReaderAt/WriterAt that cannot be truncated: partial bytes of a failed write cannot be removed
+		s.mf = iofault.New(nil)
+		s.mf.SetFaults(faults)
+		s.scr, err = storage.NewReadableWritable(onlyAt{s.mf}, roots, cfg.Opts()...)
+		s.sc = s.scr
 	case "storage-stream":
 		s.mf = iofault.New(nil)
 		s.mf.SetFaults(faults)
@@ -411,7 +417,7 @@ func runC16(t *mon.T, raw json.RawMessage) {
 
 func genC16(g *mon.G) {
 	r := gen.Rand(g.Seed)
-	targets := []string{"storage-rw", "storage-stream", "deferred-stream", "blockstore", "blockstore-many", "deferred-path"}
+	targets := []string{"storage-rw", "storage-stream", "deferred-stream", "blockstore", "blockstore-many", "deferred-path", "storage-rw-notrunc"}
 	for i := 0; i < g.Pick(150, 1500); i++ {
 		tg := targets[i%len(targets)]
 		cfg := lab.Cfg{StoreID: r.Intn(2) == 0, Sorted: r.Intn(2) == 0}
@@ -442,11 +448,11 @@ func init() {
 	Register(&mon.Check{
 		ID:          "C16",
 		Level:       "fault_enumeration",
-		Rule:        "cases = seeded sessions (open, 1-5 puts, finalize) on 6 targets (StorageCar over a WriterAt memfile, StorageCar over a plain io.Writer, deferred stream writer, deferred writer on a path (the file the library opens itself is tapped by name), blockstore.ReadWrite through the verif write hook with Put, and with one PutMany); the fault-free run yields the list of write calls; then EVERY write call is faulted once with accepted byte counts {0, mid, len-1} (quick) or every count (a third of the thorough cases), with and without a retry of the failed block, plus fault pairs in the thorough tier. Oracles: the API call during which the writer failed must return an error; Has(failed block) must be false unless stored earlier; if all later calls succeed the finalized archive must decode strictly, hold exactly the acknowledged blocks, a matching index and consistent header. counters.faulted-sessions counts individual faulted sessions. Hook-independent cross-check: 120 (quick) / 1500 (thorough) sessions on an UNTAPPED blockstore.ReadWrite in a child process whose soft RLIMIT_FSIZE is lowered to end-of-file + k around one Put (SIGXFSZ ignored), so that the kernel itself cuts the write short / fails it with EFBIG; same oracle",
+		Rule:        "cases = seeded sessions (open, 1-5 puts, finalize) on 7 targets (StorageCar over a WriterAt memfile, over a WriterAt that cannot be truncated, StorageCar over a plain io.Writer, deferred stream writer, deferred writer on a path (the file the library opens itself is tapped by name), blockstore.ReadWrite through the verif write hook with Put, and with one PutMany); the fault-free run yields the list of write calls; then EVERY write call is faulted once with accepted byte counts {0, mid, len-1} (quick) or every count (a third of the thorough cases), with and without a retry of the failed block, plus fault pairs in the thorough tier. Oracles: the API call during which the writer failed must return an error; Has(failed block) must be false unless stored earlier; if all later calls succeed the finalized archive must decode strictly, hold exactly the acknowledged blocks, a matching index and consistent header. counters.faulted-sessions counts individual faulted sessions. Hook-independent cross-check: 120 (quick) / 1500 (thorough) sessions on an UNTAPPED blockstore.ReadWrite in a child process whose soft RLIMIT_FSIZE is lowered to end-of-file + k around one Put (SIGXFSZ ignored), so that the kernel itself cuts the write short / fails it with EFBIG; same oracle",
 		Assumptions: []string{"fault model: a write call accepts k < len bytes and returns an error once (transient)", "for the blockstore the verif hook performs the partial write and returns the error, as a full disk would; its trace is checked for completeness against the file", "for a failing PutMany the blocks of the batch form a maybe-set", "the kernel-made faults (RLIMIT_FSIZE) need no hook at all and validate the hook-made ones"},
 		Gen:         genC16,
 		Run:         runC16,
 		MinCover: map[string]int{"faulted-sessions": 2000, "fault-in:open": 50, "fault-in:put": 500, "fault-in:finalize": 50, "archives-judged-after-fault": 200, "retried-failed-put": 100, "trace-completeness-checked": 5,
-			"target:blockstore": 5, "target:storage-stream": 5, "target:deferred-stream": 5, "target:deferred-path": 5, "kernel:put-failed-by-kernel": 50, "kernel:archives-judged-after-fault": 30},
+			"target:blockstore": 5, "target:storage-stream": 5, "target:deferred-stream": 5, "target:deferred-path": 5, "target:storage-rw-notrunc": 5, "kernel:put-failed-by-kernel": 50, "kernel:archives-judged-after-fault": 30},
 	})
 }
